@@ -48,6 +48,7 @@ def gen_spec(rng):
     stations = []
     for c in codes:
         nsol = 1 if rng.random() < 0.75 else rng.choice([2, 3])
+        pt = rng.choice(['A', 'A', 'A', 'B', 'C'])
         lon = [rng.randrange(0, 360), rng.randrange(0, 60), round(rng.uniform(0, 59.9), 1)]
         # latitude as [sign, deg, min, sec]: the sign lives in the degrees field even when deg == 0 ('-0 30 12.0')
         lat = [rng.choice([-1, 1]), rng.choice([0, 0, rng.randrange(0, 90)]) if rng.random() < 0.3 else rng.randrange(0, 90),
@@ -65,16 +66,17 @@ def gen_spec(rng):
             if vel:
                 est += [rng.uniform(-0.1, 0.1) for _ in range(3)]
                 sig += [rng.uniform(1e-5, 5e-3) for _ in range(3)]
-            stations.append({'code': c, 'pt': 'A', 'soln': str(s), 'domes': domes, 'tech': 'P', 'desc': desc,
+            stations.append({'code': c, 'pt': pt, 'soln': str(s), 'domes': domes, 'tech': 'P', 'desc': desc,
                              'lon': lon, 'lat': lat, 'h': h, 'epoch': ep,
-                             'start': '%02d:%03d:%05d' % (yy, 1, 0), 'end': '%02d:%03d:%05d' % (yy, 365, 86370),
+                             'start': '%02d:%03d:%05d' % (yy, 1, 0),
+                             'end': '00:000:00000' if rng.random() < 0.15 else '%02d:%03d:%05d' % (yy, 365, 86370),
                              'est': [fe(v) for v in est], 'sig': [fs(v) for v in sig]})
     agencies = ['AUS', 'GA ', 'VIC', 'IGS', 'NGV', 'V6V']
     created = '%02d:%03d:%05d' % (rng.randrange(0, 30), rng.randrange(1, 366), rng.randrange(0, 86400))
     start = created if rng.random() < 0.25 else '%02d:%03d:%05d' % (rng.randrange(0, 30), rng.randrange(1, 366), rng.choice([0, 6, 12, 36, 18, 30]))
     end = '%02d:%03d:%05d' % (rng.randrange(0, 30), rng.randrange(1, 366), rng.choice([0, 86370, 6, 12, 36]))
     return {'agency': rng.choice(agencies), 'data_agency': rng.choice(agencies), 'created': created, 'start': start, 'end': end,
-            'technique': 'P', 'constraint': rng.choice('012'), 'velocities': vel, 'triangle': tri,
+            'technique': rng.choice('PPPCRLDM'), 'constraint': rng.choice('012'), 'velocities': vel, 'triangle': tri,
             'stations': stations, 'cov_seed': rng.getrandbits(48),
             'zero_frac': rng.choice([0, 0, 0.3, 0.6, 0.9]),
             'est_comment': rng.random() < 0.8, 'mat_comment': rng.random() < 0.7,
